@@ -17,7 +17,8 @@ def public_api_check():
     from harness import h_c08
     bad = []
     n = 0
-    for val in (None, "", " ", "a", " a ", "a  b", "\t", " \n ", "a\nb", "  ", " a  b ", "a<b&c", " &amp; ", "\u00a0", "x\u00a0 y"):
+    for val in (None, "", " ", "a", " a ", "a  b", "\t", " \n ", "a\nb", "  ", " a  b ", "a<b&c", " &amp; ", "\u00a0", "x\u00a0 y",
+                "CDATA:&nbsp;", "CDATA:a<b&c", "CDATA: &amp; &#160; ", "&nbsp;x".replace("&nbsp;", "&amp;nbsp;")):
         for clean, collapse, literal, redeclare in itertools.product((False, True), repeat=4):
             for p in (0, 1, 2, 3, 10, 20, 30, 40):
                 h_c08.FLD, h_c08.AKIND = p % 10, p // 10
